@@ -31,7 +31,7 @@ def _optimizers(pid):
 
 
 gprops.G_PROPS["C09"] = dict(oracles=["c09_obs"], families=FAMILIES, modes=["serial", "thread", "process"],
-                             n_quick=3000, n_thorough=30000, opts={"extreme_p": 0.0, "extreme_every": 2})
+                             n_quick=3000, n_thorough=30000, opts={"extreme_p": 0.0, "extreme_every": 2, "small_pop_p": 0.2})
 
 
 def plan(pid, tier, seed, n_override=None):
@@ -67,6 +67,13 @@ def make_desc(job):
                         "other_run": r.random() < 0.3}
         if r.random() < 0.3:
             d["ambient"] = {"np": r.randrange(1, 50), "py": 0, "reseed": False, "other_run": False}
+        rfp = random.Random(H(seed, "c07-failed-pooled-run"))
+        if rfp.random() < 0.2:
+            # between the two seeded runs, a pooled run (same process) is aborted by a failing objective evaluation
+            d["ambient"]["failed_pooled_run"] = {"mode": rfp.choice(["thread", "thread", "process"]),
+                                                 "workers": rfp.choice([1, 2, 3, 4]), "at": rfp.randrange(1, 12),
+                                                 "exc": rfp.choice([None, "ValueError", "TypeError", "KeyError"]),
+                                                 "sched": scenario.gen_sched(rfp)}
         rmt = random.Random(H(seed, "c07-multitask"))
         if rmt.random() < 0.15:
             # the same seeded serial runs, launched as trials of the multitask utility
@@ -77,6 +84,9 @@ def make_desc(job):
         # histories end by different stop criteria: cycle budget, fitness_error (large threshold), early stopping
         d["config"], d["perturbed"] = scenario.gen_config(r, opt, engine_g.make_config, cycles=(2, cyc[1]),
                                                           perturb_p=0.1, stop_opts=False)
+        if random.Random(H(seed, "c08-longer")).random() < 0.25:
+            # schedules inside an algorithm (shrinking zones, decaying rates) only pass their switch points in longer runs
+            d["config"]["max_cycles"] = random.Random(H(seed, "c08-longer-n")).choice([11, 12, 15, 20, 30, 40])
         stop = r.choice(["cycles", "cycles", "fitness_error", "early_stopping"])
         if stop == "fitness_error":
             d["config"]["fitness_error"] = r.choice([0.3, 0.9, 10.0])
@@ -99,6 +109,9 @@ def make_desc(job):
             if rm.random() < 0.4:
                 h["mode"] = rm.choice(["thread", "process"])
                 h["workers"] = rm.choice([1, 2, 4, 8])
+        for h in hist:
+            if rm.random() < 0.2:
+                h["scribble_result"] = True       # the caller edits the earlier result in place before the next run
         d["ops"] = hist
         d["abort_first_at"] = r.randrange(1, 40) if r.random() < 0.15 else None
         if r.random() < 0.35:
@@ -252,7 +265,7 @@ def cross_process_replay(desc):
 def run_c07(desc, stats):
     out = []
     opt = desc["optimizer"]
-    with Session(desc["seed"]) as s:
+    with Session(desc["seed"], sched=(desc["ambient"].get("failed_pooled_run") or {}).get("sched")) as s:
         s.set_ambient("A")
         try:
             task_a = tasks.build_task(desc["task"])
@@ -276,6 +289,24 @@ def run_c07(desc, stats):
                                                       max_cycles=2))), tasks.build_task(tdesc), entropy_label="other")
             except Exception:
                 pass
+        fpr = amb.get("failed_pooled_run")
+        if fpr:
+            k_ = s.n_obj + fpr["at"]
+            s.fp.raise_at = [k_]
+            s.fp.raise_exc = {k_: fpr.get("exc")}
+            try:
+                pso = install.OPTIMIZERS["ParticleSwarmOptimization"](engine_g.make_config(
+                    "ParticleSwarmOptimization", dict(scenario.base_configs()["ParticleSwarmOptimization"]["params"],
+                                                      max_cycles=2)))
+                fr = s.call(pso, tasks.build_task(dict(desc["task"], seed=None)), mode=fpr["mode"],
+                            workers=fpr["workers"], entropy_label="failed-pooled")
+                if fr.injected:
+                    s.sim.count("fault_fired:aborted_pooled_run_before_seeded_run")
+            except kernel.SimAbort:
+                raise
+            except Exception:
+                pass
+            s.fp.raise_at = []
         task_b = tasks.build_task(desc["task"])
         b = s.call(_cls(desc)(_cfg(desc)), task_b, entropy_label="B")
         stats["steps"] = a.steps
@@ -352,6 +383,9 @@ def run_c08(desc, stats):
                 aborted = True
             elif h.exc is None:
                 completed += 1
+                if op.get("scribble_result"):
+                    engine_g._scribble_result(h.result)
+                    s.sim.count("history_result_scribbled")
         if desc.get("history_config"):
             # the used instance is re-configured to the observed configuration (what HyperTuner does per grid point)
             x.set_config_parameters(copy.deepcopy(desc["config"]))
@@ -429,7 +463,10 @@ def _c09_one(desc, faults, stats, label, call_kwargs=None):
         for f in _diff_fields(tb, ta):
             out.append({"cls": [opt, "task", f, outcome],
                         "msg": f"task field {f!r} changed after optimize() {outcome} ({label}, mode {kw['mode']})"})
-        if faults and (r.deadlock or r.step_limit):
+        fired_here = any(v for k, v in s.sim.counters.items()
+                         if k in ("fault_fired:objective_raise", "fault_fired:worker_crash"))
+        if faults and fired_here and (r.deadlock or r.step_limit) and not s.sim.wall_limit_hit:
+            # (a run that never reached its fault and does not terminate is C04's business, not this clause's)
             out.append({"cls": [opt, "hang_after_fault", kw["mode"]],
                         "msg": f"after {label} optimize() neither returned nor raised within the step budget "
                                f"(deadlock={r.deadlock})"})
@@ -453,6 +490,11 @@ def run_c09(desc, stats):
     stats["digest_parts"] = []
     out, twin = _c09_one(desc, [], stats, "fault-free run")
     stats["steps"] = twin.steps
+    if twin.step_limit or twin.deadlock:
+        # the fault-free run itself does not terminate within the budget (C04's business): no sweep on top of it
+        stats["uninformative"] = True
+        stats["digest"] = "-".join(stats.pop("digest_parts"))[:64]
+        return out
     n = twin.obj_calls
     pts = desc.get("crash_points")
     if pts is None:
